@@ -193,7 +193,26 @@ pub fn run_attrmap(args: &[&str]) -> String {
         return "BADCASE".into();
     }
     match TXT::try_from(m) {
-        Ok(txt) => format!("OK {}", attrs_tok(&txt.attributes())),
+        Ok(txt) => {
+            // the same TXT inside a packet, plain and compressed (the string order follows the map's iteration order, so these
+            // two legs are checked by the orchestrator's walker and not compared with the model)
+            let mut p = simple_dns::Packet::new_query(1);
+            p.answers.push(simple_dns::ResourceRecord::new(
+                Name::new_unchecked("t"),
+                simple_dns::CLASS::IN,
+                60,
+                simple_dns::rdata::RData::TXT(txt.clone()),
+            ));
+            let plain = match p.build_bytes_vec() {
+                Ok(b) => format!("OK {}", bytes_to_hex(&b)),
+                Err(e) => err_line(&e),
+            };
+            let comp = match p.build_bytes_vec_compressed() {
+                Ok(b) => format!("OK {}", bytes_to_hex(&b)),
+                Err(e) => err_line(&e),
+            };
+            format!("OK {} | {} | {}", attrs_tok(&txt.attributes()), plain, comp)
+        }
         Err(_) => "ERR".into(),
     }
 }
